@@ -33,6 +33,7 @@ def run(ck, progs):
         ck.guard("C11-b TAINT value", lambda: c11b(ck, prog))
         ck.guard("C11-c PAIR set-cookie", lambda: c11c(ck, prog))
         ck.guard("C11-d TABLE alphabets", lambda: c11d(ck, prog))
+        ck.guard("C11-e MUSTPASS unknown cookie skipped whole", lambda: c11e(ck, prog))
     ck.config = None
 
 
@@ -251,3 +252,21 @@ def c11d(ck, prog):
               "" if ok else "serde_cookie valid::%s lets through %s and refuses %s; RFC 6265 %s is %s (wrongly refused: %s; wrongly accepted: %s)"
               % (nm, valueset.show(acc), valueset.show(rej), what, valueset.show(want), valueset.show(want - acc), valueset.show(acc - want)),
               how="accepted set = RFC 6265 %s (%d bytes), computed by value-set dataflow over the match" % (what, len(want)))
+
+
+def c11e(ck, prog):
+    """`cookies the target does not declare are ignored`: skipping one means consuming its value up to the next pair, wherever
+    in the jar it stands -- also as the last pair, where no `;` follows. deserialize_ignored_any of the cookie decoder must
+    consume through the decoder's own section reader (the same step every declared value takes) on every path."""
+    R = "C11-e MUSTPASS unknown cookie skipped whole"
+    fs = prog.find(r"CookieDeserializer<'de> as serde_core::de::Deserializer<'de>>::deserialize_ignored_any$")
+    if len(fs) != 1:
+        raise AnchorLost("deserialize_ignored_any of the cookie decoder not found (%d)" % len(fs))
+    f = fs[0]
+    ns = f.calls_to(r"CookieDeserializer::<'de>::next_section$")
+    exits = f.exits()
+    ok = len(ns) >= 1 and all(any(f.dominates(c.bb, e) for c in ns) for e in exits)
+    own = [c.name for c in f.calls() if c.name in ("position", "find", "index", "split_at", "get", "get_unchecked")]
+    ck.ob(R, "ignored-value:consumed-by-next_section", ok and not own, f.loc(None),
+          "" if ok and not own else "deserialize_ignored_any of the cookie decoder does not consume the value through next_section() on every path (own scanning: %r): an undeclared cookie at a position its private scan does not "
+          "handle (e.g. last in the jar, where no `;` follows) is left in the input and the whole decode fails" % own, how="next_section() dominates every return; no private scanning")
